@@ -267,7 +267,7 @@ func c13IPSetProbe(t *testing.T, tb *cnative.Table, rec *ev.Recorder) {
 			alen = 16
 		}
 		zero := make([]byte, alen)
-		ones := bytesOf(0xff, alen)
+		ones := c13Fill(0xff, alen)
 		base := encs[ipver](0, zero, alen*8, 0, 0)
 		probes := []struct {
 			field string
@@ -320,7 +320,7 @@ func c13IPSetProbe(t *testing.T, tb *cnative.Table, rec *ev.Recorder) {
 	}
 }
 
-func bytesOf(v byte, n int) []byte {
+func c13Fill(v byte, n int) []byte {
 	b := make([]byte, n)
 	for i := range b {
 		b[i] = v
@@ -358,7 +358,7 @@ func c13AccessorProbe(t *testing.T, what string, total int, cf cnative.CField, g
 		t.Fatalf("C13 layout disagreement: %s: with only bytes [%d,%d) of the C field set, Go reads % x (width %d); C field is %d bytes wide at offset %d",
 			what, cf.Off, cf.Off+cf.Size, got, len(got), cf.Size, cf.Off)
 	}
-	out := bytesOf(0xff, total)
+	out := c13Fill(0xff, total)
 	for i := cf.Off; i < cf.Off+cf.Size && i < total; i++ {
 		out[i] = 0
 	}
@@ -434,8 +434,8 @@ func c13GenRule(t *rapid.T, ipver int, alloc *idalloc.IDAllocator) *proto.Rule {
 	netList := func(label string) []string {
 		return rapid.SliceOfNDistinct(rapid.SampledFrom(nets), 0, 2, rapid.ID[string]).Draw(t, label)
 	}
-	setList := func(label string, prefix string) []string {
-		ids := rapid.SliceOfNDistinct(rapid.SampledFrom([]string{"a", "b", "c"}), 0, 2, rapid.ID[string]).Draw(t, label)
+	setList := func(label string, prefix string, max int) []string {
+		ids := rapid.SliceOfNDistinct(rapid.SampledFrom([]string{"a", "b", "c"}), 0, max, rapid.ID[string]).Draw(t, label)
 		var out []string
 		for _, id := range ids {
 			s := prefix + id
@@ -466,10 +466,10 @@ func c13GenRule(t *rapid.T, ipver int, alloc *idalloc.IDAllocator) *proto.Rule {
 		r.DstPorts = ports("dstPorts")
 		r.NotSrcPorts = ports("notSrcPorts")
 		r.NotDstPorts = ports("notDstPorts")
-		r.SrcNamedPortIpSetIds = setList("srcNamed", "n:src")
-		r.DstNamedPortIpSetIds = setList("dstNamed", "n:dst")
-		r.NotSrcNamedPortIpSetIds = setList("notSrcNamed", "n:nsrc")
-		r.NotDstNamedPortIpSetIds = setList("notDstNamed", "n:ndst")
+		r.SrcNamedPortIpSetIds = setList("srcNamed", "n:src", 2)
+		r.DstNamedPortIpSetIds = setList("dstNamed", "n:dst", 2)
+		r.NotSrcNamedPortIpSetIds = setList("notSrcNamed", "n:nsrc", 2)
+		r.NotDstNamedPortIpSetIds = setList("notDstNamed", "n:ndst", 2)
 	case "icmp":
 		n := int32(1)
 		if ipver == 6 {
@@ -495,10 +495,11 @@ func c13GenRule(t *rapid.T, ipver int, alloc *idalloc.IDAllocator) *proto.Rule {
 	r.DstNet = netList("dstNet")
 	r.NotSrcNet = netList("notSrcNet")
 	r.NotDstNet = netList("notDstNet")
-	r.SrcIpSetIds = setList("srcSets", "s:src")
-	r.DstIpSetIds = setList("dstSets", "s:dst")
-	r.NotSrcIpSetIds = setList("notSrcSets", "s:nsrc")
-	r.NotDstIpSetIds = setList("notDstSets", "s:ndst")
+	// positive selector sets are combined into one set by the calc graph (polprog panics on >1 DstIpSetIds)
+	r.SrcIpSetIds = setList("srcSets", "s:src", 1)
+	r.DstIpSetIds = setList("dstSets", "s:dst", 1)
+	r.NotSrcIpSetIds = setList("notSrcSets", "s:nsrc", 2)
+	r.NotDstIpSetIds = setList("notDstSets", "s:ndst", 2)
 	return r
 }
 
